@@ -267,7 +267,28 @@ class KBEval:
                     v = a.value() * b.value() if op == '*' else (a.value() // b.value() if b.value() else 0)
                     return KB.const(w, v)
                 return KB.top(w)
-            if op in ('==', '!=', '<', '>', '<=', '>=', '&&', '||'):
+            if op in ('==', '!=', '<', '>', '<=', '>='):
+                av, bv = a.value(), b.value()
+                if av is not None and bv is not None:
+                    lt = type_info(n['l'].get('ty'))
+                    if lt and lt[1]:
+                        av = av - (1 << a.w) if av >> (a.w - 1) else av
+                        bv = bv - (1 << b.w) if bv >> (b.w - 1) else bv
+                    res = {'==': av == bv, '!=': av != bv, '<': av < bv, '>': av > bv, '<=': av <= bv, '>=': av >= bv}[op]
+                    return KB.const(w, 1 if res else 0)
+                lt = type_info(n['l'].get('ty'))
+                if lt and lt[1] and bv == 0 and op in ('<', '>=') and a.bit(a.w - 1) is not None:
+                    neg = a.bit(a.w - 1) == 1
+                    return KB.const(w, 1 if (neg if op == '<' else not neg) else 0)
+                return KB.top(w)
+            if op in ('&&', '||'):
+                av, bv = a.value(), b.value()
+                if op == '||' and ((av is not None and av) or (bv is not None and bv)):
+                    return KB.const(w, 1)
+                if op == '&&' and ((av is not None and not av) or (bv is not None and not bv)):
+                    return KB.const(w, 0)
+                if av is not None and bv is not None:
+                    return KB.const(w, 1 if ((av and bv) if op == '&&' else (av or bv)) else 0)
                 return KB.top(w)
             raise AnalysisBroken('known-bits: unsupported operator %s' % op)
         if k == 'Cond':
@@ -289,6 +310,16 @@ class KBEval:
             return self.overrides[fn].resize(w, False)
         if fn and self.F.has_func(fn) and self.depth < 8:
             f = self.F.func(fn)
+            ovs = self.F.overloads(fn) if hasattr(self.F, 'overloads') else [f]
+            if len(ovs) > 1:
+                # overloaded name: pick by arity (the resolved call lists default arguments explicitly), then by parameter types
+                cand = [o for o in ovs if len(o['params']) == len(n.get('a', []))]
+                if len(cand) > 1:
+                    cand = [o for o in cand if all((type_info(p['ty']) or (None,))[0] == (type_info(a.get('ty')) or (None,))[0] for p, a in zip(o['params'], n['a']))]
+                if len(cand) != 1:
+                    w, _ = self.width_of(n)
+                    return KB.top(w)
+                f = cand[0]
             env = {}
             for p, a in zip(f['params'], n.get('a', [])):
                 ti = type_info(p['ty'])
